@@ -1,13 +1,13 @@
 """C05 - normalize_url only deletes irrelevant parts, honours its options, never raises."""
 import os
 
-from harness import core, tlc
+from harness import core, harvest, tlc
 from harness.core import enc, dec, guarded
 
 PID = "C05"
 D = os.path.join(tlc.SPEC_DIR, "data")
 ENV = {"C05_URLS": D + "/c05urls.json", "NORM_DATA": D + "/normdata.json", "BASES_DATA": D + "/bases.json", "URL_DATA": D + "/urlgen.json"}
-NURLS = 48
+NURLS = 51
 KW = {"sort": "sort_query", "auth": "strip_authentication", "ts": "strip_trailing_slash", "index": "strip_index",
       "proto": "strip_protocol", "sub": "strip_irrelevant_subdomains", "amp": "normalize_amp", "fix": "fix_common_mistakes",
       "quoted": "quoted"}
@@ -75,6 +75,26 @@ def run(ctx):
                  "amp": True, "fix": True, "quoted": False}
             return sum(1 for k in d if o[k] != d[k]) <= 1
         cases = [c for c in cases if tuple(c["u"]) in keepu or near_default(c["o"])]
+    # the repository's own normalize_url test inputs: default options and every single flip
+    DEF = {"sort": True, "auth": True, "ts": True, "index": True, "proto": True, "sub": True, "frag": "except-routing",
+           "amp": True, "fix": True, "quoted": False, "lang": False, "lower": False}
+    hv = harvest.inputs(ctx, "normalize_url")
+    for a, _kw in hv:
+        text = a[0].lower()
+        if "facebook" in text or "youtu" in text:
+            continue
+        vectors = [dict(DEF)]
+        for k in ("sort", "auth", "ts", "index", "proto", "sub", "amp", "fix", "quoted"):
+            o = dict(DEF)
+            o[k] = not o[k]
+            vectors.append(o)
+        for fr in ("true", "false"):
+            o = dict(DEF)
+            o["frag"] = fr
+            vectors.append(o)
+        for n, o in enumerate(vectors):
+            cases.append({"u": enc(a[0]), "o": o, "infer": n % 2 == 0, "platform": False})
+    ctx.extra["test_suite_inputs"] = len(hv)
     failing = core.judge(ctx, "harness.checks.c05", cases, "Trace_C05", TRACE_CFG, describe, env=ENV,
                          nontrivial=lambda c, e: (tuple(c["u"]), repr(sorted(c["o"].items()))) if e["r"] != c["u"] else None)
     ctx.traces_validated = len(cases)
